@@ -64,6 +64,59 @@ fn gen_config_for(ch: &mut Chooser, kind: Kind) -> (usize, usize, usize) {
     }
 }
 
+/// A working space that one fixed rate set up for a configuration the OTHER fixed rate does not support is handed to
+/// that other rate's constructor with exactly the same triple: it must be refused like a fresh construction is
+/// (configurations inside only one of the two envelopes have more than 32768 shards on one side, which ordinary
+/// histories never carry around). Returns true when a violation was reported.
+fn cross_rate_refused(ch: &mut Chooser, ctx: &mut Ctx, decoder: bool) -> bool {
+    let big = 32769 + ch.pick_usize("xrate.big", 32766);
+    let small = 1 + ch.pick_usize("xrate.small", 5);
+    let (k, r) = if ch.chance("xrate.swap", 1, 2) { (small, big) } else { (big, small) };
+    let hi = envelope::supported(Family::High, k, r);
+    let lo = envelope::supported(Family::Low, k, r);
+    if hi == lo {
+        return false;
+    }
+    let (a, b) = if hi { (Layer::High, Layer::Low) } else { (Layer::Low, Layer::High) };
+    let engine = if ch.chance("xrate.engine", 1, 2) && EngineKind::Avx2.available() { EngineKind::Avx2 } else { EngineKind::NoSimd };
+    let bytes = [2usize, 64, 66][ch.pick_usize("xrate.bytes", 3)];
+    let (ka, kb) = (Kind { layer: a, engine }, Kind { layer: b, engine });
+    ctx.count("probe.cross_rate_refused_handover");
+    let want = Error::UnsupportedShardCount { original_count: k, recovery_count: r };
+    let outcome: Result<Result<(), Error>, String> = if decoder {
+        let Ok(Ok(first)) = ctx.guarded(false, || dec_new(ka, k, r, bytes, None)) else {
+            ctx.viol(&["C08", "C06"], "verdict", "verdict/new/xrate-first".into(), format!("{}::new({k}, {r}, {bytes}) failed for a configuration its rate supports", ka.name()), false);
+            return true;
+        };
+        let Ok(work) = ctx.guarded(false, || first.into_work()) else { return false };
+        ctx.guarded(false, || dec_new(kb, k, r, bytes, work).map(|_| ()))
+    } else {
+        let Ok(Ok(first)) = ctx.guarded(false, || enc_new(ka, k, r, bytes, None)) else {
+            ctx.viol(&["C08", "C06"], "verdict", "verdict/new/xrate-first".into(), format!("{}::new({k}, {r}, {bytes}) failed for a configuration its rate supports", ka.name()), false);
+            return true;
+        };
+        let Ok(work) = ctx.guarded(false, || first.into_work()) else { return false };
+        ctx.guarded(false, || enc_new(kb, k, r, bytes, work).map(|_| ()))
+    };
+    let _ = take_ctor_stats();
+    ev!(ctx, "cross-rate hand-over: {} set up ({k}, {r}, {bytes}); {}::new with that working space and the same triple -> {:?}", ka.name(), kb.name(), outcome);
+    match outcome {
+        Ok(Err(e)) if e == want => false,
+        Ok(Err(e)) => {
+            ctx.viol(&["C08", "C06"], "verdict", format!("verdict/new/{}", err_name(&e)), format!("{}::new({k}, {r}, {bytes}, Some(work of {})) returned Err({e:?}), expected Err({want:?})", kb.name(), ka.name()), false);
+            true
+        }
+        Ok(Ok(())) => {
+            ctx.viol(&["C08", "C06"], "envelope", "envelope/new-accepts-unsupported".into(), format!("{}::new({k}, {r}, {bytes}, Some(work)) returned Ok although {}::supports({k}, {r}) is false (the working space came from {} with the same triple)", kb.name(), kb.name(), ka.name()), false);
+            true
+        }
+        Err(msg) => {
+            ctx.viol(&["C08", "C06"], "no-panic", format!("panic/new/{}", panic_sig(&msg)), format!("{}::new({k}, {r}, {bytes}, Some(work of {})) panicked instead of returning Err({want:?}): {msg}", kb.name(), ka.name()), false);
+            true
+        }
+    }
+}
+
 pub fn other_engine(kind: Kind, ch: &mut Chooser) -> Kind {
     let mut engine = gen_engine(ch);
     if engine == kind.engine || engine == EngineKind::Lockstep {
@@ -1015,6 +1068,9 @@ pub fn run_encoder(ch: &mut Chooser, ctx: &mut Ctx) {
             }
             // ---------------------------------------------------- recycle working space through into_parts / new(Some(work))
             5 => {
+                if ch.chance("recycle.xrate", 1, 12) && cross_rate_refused(ch, ctx, false) {
+                    return;
+                }
                 let new_kind = if st.kind.layer == Layer::Rs || ch.chance("recycle.samekind", 1, 3) { st.kind } else { gen_kind(ch) };
                 let old = std::mem::replace(&mut obj, Box::new(NullEnc));
                 let given = ctx.guarded(false, || old.into_work());
@@ -1878,6 +1934,9 @@ pub fn run_decoder(ch: &mut Chooser, ctx: &mut Ctx) {
             }
             // ---------------------------------------------------- recycle
             7 => {
+                if ch.chance("recycle.xrate", 1, 12) && cross_rate_refused(ch, ctx, true) {
+                    return;
+                }
                 let new_kind = if st.kind.layer == Layer::Rs || ch.chance("recycle.samekind", 1, 3) { st.kind } else { gen_kind(ch) };
                 let old = std::mem::replace(&mut obj, Box::new(NullDec));
                 match ctx.guarded(false, || old.into_work()) {
